@@ -77,9 +77,9 @@ def cases(tier, seed):
     # not be confused with the one the job thread is just finishing, timing out or cleaning up
     for layer in ('j1939-21', 'j1939-22'):
         unit = 60 if layer == 'j1939-22' else 7
-        for mode in ('cmdt', 'x_cts_then_silent', 'x_abort_at_t3', 'x_abort_after_dt', 'x_abort_on_rts'):
+        for mode in ('cmdt', 'bam', 'x_cts_then_silent', 'x_abort_at_t3', 'x_abort_after_dt', 'x_abort_on_rts'):
             for hold in ((0.001,) if tier == 'quick' else (0.0002, 0.001, 0.005)):
-                out.append(dict(kind='exhaustive', resubmit=True, layer=layer, mode=mode, role='orig', w=255 if mode == 'cmdt' else 2, lat=(0.0001, 0.001), hold=hold,
+                out.append(dict(kind='exhaustive', resubmit=True, layer=layer, mode=mode, role='orig', w=255 if mode in ('cmdt', 'bam') else 2, lat=(0.0001, 0.001), hold=hold,
                                 size=unit * 3 - 2, seed=seed * 131 + len(out)))
     # the converse: the RECEIVE thread is suspended at every source line of its frame handlers in turn while the job thread (and the rest of the
     # system) keeps running -- the other way round of "wherever the OS suspends the background thread relative to the thread that feeds frames in"
@@ -126,7 +126,10 @@ def one_run(case, plan, seed):
 
     def do_resubmit():
         dest = RA_ if mode.startswith('x_') else 0x20
-        rec = W.call('resubmit', ca.send_pgn, 0, 0xD0, dest, 6, list(pay2r))
+        if mode == 'bam':
+            rec = W.call('resubmit', ca.send_pgn, 0, 0xFE, 0xF7, 6, list(pay2r))          # the next broadcast (another PGN)
+        else:
+            rec = W.call('resubmit', ca.send_pgn, 0, 0xD0, dest, 6, list(pay2r))
         resub['ret'] = rec['ret']
         resub['exc'] = rec['exc']
     rx = case.get('thread') == 'rx'        # pre-empt the receive thread (frame handler suspended, job thread runs) instead of the job thread
